@@ -50,7 +50,10 @@ func enumWL(r *spg.WLRecipe, maxLeaves int) (*wlDist, error) {
 	d.Leaves = leaves
 	ev.Leaves(int64(leaves))
 	if err == enum.ErrTooBig {
-		err = &ev.Inc{Why: "wordlist tree larger than the reference predicts (leaf budget exceeded)"}
+		// an implementation that makes more draws than the pinned one (a second
+		// discarded separator call, say) has a bigger tree: not judged, not blamed
+		ev.Class("tree_beyond_leaf_budget_not_judged")
+		err = &ev.Skip{Why: "wordlist tree beyond the leaf budget"}
 	}
 	return d, err
 }
